@@ -40,7 +40,17 @@ def change_split_guard(site):
     require that the site is dominated by the change >= n edge of a comparison
     between the local `change` and the change-output count."""
     fn = site.fn
-    ch = [l for l, n in fn.var_names().items() if n == "change"]
+    # by role: the divisor of the remainder is `part = change / n`; `change` is that division's dividend
+    ch = []
+    if site.ops:
+        dl = vf.strip_clones(fn, site.ops[0])
+        for d in fn.defs().get(dl, []) if dl is not None else []:
+            if d[0] == "a" and d[3]["r"]["k"] == "bin" and d[3]["r"]["op"] == "Div":
+                l0 = vf.strip_clones(fn, d[3]["r"]["l"])
+                if l0 is not None:
+                    ch.append(l0)
+    if len(ch) != 1:
+        ch = [l for l, n in fn.var_names().items() if n == "change"]
     if len(ch) != 1:
         return False
     for x in cfg.comparisons(fn):
@@ -289,8 +299,17 @@ def run(ctx):
     scf = ctx.fn(SEL + "select_coins_and_fee")
     if scf:
         fl = vf.get_flow(scf)
-        # fee local: every definition is a tx_fee call
-        fee_l = [l for l, n in scf.var_names().items() if n == "fee"]
+        # fee local, found by role: the 4th component of the returned Ok((coins, total, new_amount, fee))
+        fee_l, coins_l = [], []
+        for bb in scf.bbs:
+            for st in bb["s"]:
+                if st["k"] == "a" and st["r"]["k"] == "agg" and st["r"].get("ak") == "tuple" and len(st["r"]["f"]) == 4:
+                    l3 = vf.strip_clones(scf, st["r"]["f"][3][1])
+                    l0 = vf.strip_clones(scf, st["r"]["f"][0][1])
+                    if l3 is not None and scf.locals[l3]["ty"] == "u64" and l3 not in fee_l:
+                        fee_l.append(l3)
+                    if l0 is not None and l0 not in coins_l:
+                        coins_l.append(l0)
         held = len(fee_l) == 1
         if held:
             defs = scf.defs().get(fee_l[0], [])
@@ -314,22 +333,26 @@ def run(ctx):
                 if h:
                     lt = scf.bbs[lens[0][2]]["t"]
                     recv = vf.strip_clones(scf, lt["a"][0])
-                    h = scf.var_names().get(recv) == "coins"
+                    h = recv in coins_l
                 run.instance(R4, {"fn": "select_coins_and_fee", "obligation": "tx_fee input count is coins.len()", "site": t["sp"].split(":")[1]}, held=h)
                 if not h:
                     run.finding(Finding(R4, scf.id, "tx_fee is not computed from the number of selected coins", site=c.site_of(scf, b)))
     iac = ctx.fn(SEL + "inputs_and_change")
     if iac:
-        ch = [l for l, n in iac.var_names().items() if n == "change"]
-        if len(ch) != 1:
-            run.error("C01.R4: local `change` not found in inputs_and_change")
+        # by role: every amount handed to build::output depends on the coins, the amount and the fee parameters
+        u64_params = [i for i in range(1, iac.argc + 1) if iac.locals[i]["ty"] == "u64"]
+        coin_params = [i for i in range(1, iac.argc + 1) if "OutputData" in iac.locals[i]["ty"]]
+        outs = cfg.find_calls(iac, "grin_core::libtx::build::output")
+        if len(u64_params) != 2 or len(coin_params) != 1 or not outs:
+            run.error("C01.R4: inputs_and_change signature / build::output call not as expected (anchor missing)")
         else:
-            o = vf.get_flow(iac).of_local(ch[0])
-            pn = {n: p[0] for n, p, a in iac.vars if a > 0 and not p[1]}
-            held = ("arg", pn.get("amount")) in o and ("arg", pn.get("fee")) in o and ("arg", pn.get("coins")) in o
-            run.instance(R4, {"fn": "inputs_and_change", "obligation": "change depends on the coins, the amount and the fee"}, held=held)
-            if not held:
-                run.finding(Finding(R4, iac.id, "change no longer depends on all of coins/amount/fee", site=iac.loc()))
+            fl_i = vf.get_flow(iac)
+            for b, t in outs:
+                o = fl_i.of_operand(t["a"][0])
+                held = all(("arg", i) in o for i in u64_params + coin_params)
+                run.instance(R4, {"fn": "inputs_and_change", "obligation": "the amount of every change output depends on the coins, the amount and the fee", "site": c.site_of(iac, b)}, held=held)
+                if not held:
+                    run.finding(Finding(R4, iac.id, "change no longer depends on all of coins/amount/fee", site=c.site_of(iac, b)))
     bst = ctx.fn(SEL + "build_send_tx")
     if bst:
         fl = vf.get_flow(bst)
@@ -349,7 +372,8 @@ def run(ctx):
     R5 = "C01.R5"
     run.rule(R5, "an agreed (fixed) fee is binding: build_send_tx goes on only when the re-computed fee equals it", floor=1)
     if bst:
-        fx = [p[0] for n, p, a in bst.vars if n == "fixed_fee" and a > 0 and not p[1]]
+        fxp = c.param(bst, "fixed_fee", "core::option::Option<u64>")
+        fx = [fxp] if fxp is not None else []
         fixed_arg = fx[0] if fx else None
         found = []
         for g in [bst] + [db.fns[k] for k in db.closures_of(bst.id)]:
